@@ -611,6 +611,55 @@ Proof.
   intro A. rewrite <- ndp_reasons_nil_iff. apply admissible_none; [apply ndp_reasons_no_none|exact A].
 Qed.
 
+(* ---------- the responder loop: a malformed frame is a no-op ---------- *)
+Lemma arp_process_not_closed s intf mac op dst t : arp_process s intf mac op dst t <> DClosed.
+Proof.
+  unfold arp_process. destruct (negb (N.eqb op 1)); [discriminate|].
+  destruct (negb (N.eqb dst bcast) && negb (N.eqb dst mac)); [discriminate|].
+  unfold should_announce.
+  destruct (scan_range t intf (all_advs s) false) as [E|[E|E]]; rewrite E; discriminate.
+Qed.
+
+Lemma rx_drop_closed s intf mac r : rx_drop s intf mac r = DClosed <-> r = RxClosed.
+Proof.
+  destruct r; cbn; split; intro H; try reflexivity; try discriminate.
+  exfalso. exact (arp_process_not_closed _ _ _ _ _ _ H).
+Qed.
+
+(* as long as the socket is not closed, the loop processes EVERY frame, and the verdict of a
+   well-formed frame is the one of processRequest on that frame alone: malformed frames before it
+   change nothing *)
+Lemma arp_run_all s intf mac rs :
+  ~ In RxClosed rs -> arp_run s intf mac rs = map (rx_drop s intf mac) rs.
+Proof.
+  induction rs as [|r t IH]; intro NI; [reflexivity|]. cbn [arp_run map].
+  destruct (drop_eqb (rx_drop s intf mac r) DClosed) eqn:E.
+  - apply drop_eqb_eq in E. apply rx_drop_closed in E. subst r. exfalso. apply NI. left. reflexivity.
+  - f_equal. apply IH. intro H. apply NI. right. exact H.
+Qed.
+
+Lemma arp_run_frame s intf mac rs i f :
+  ~ In RxClosed rs -> nth_error rs i = Some (RxFrame f) ->
+  nth_error (arp_run s intf mac rs) i = Some (arp_process_frame s intf mac f).
+Proof.
+  intros NI H. rewrite (arp_run_all _ _ _ _ NI). rewrite nth_error_map, H. reflexivity.
+Qed.
+
+(* the variant that takes a malformed frame for the end of the socket stops answering: whatever
+   follows the first malformed frame is never processed *)
+Lemma arp_run_exit_stops s intf mac pre post :
+  ~ In RxClosed pre -> ~ In RxMalformed pre ->
+  length (arp_run_exit s intf mac (pre ++ RxMalformed :: post)) = S (length pre).
+Proof.
+  induction pre as [|r t IH]; intros NC NM; [reflexivity|]. cbn [app arp_run_exit length].
+  destruct (drop_eqb (rx_drop_exit s intf mac r) DClosed) eqn:E.
+  - exfalso. apply drop_eqb_eq in E. destruct r; cbn in E.
+    + apply NC. left. reflexivity.
+    + apply NM. left. reflexivity.
+    + exact (arp_process_not_closed _ _ _ _ _ _ E).
+  - f_equal. apply IH; intro H; [apply NC|apply NM]; right; exact H.
+Qed.
+
 (* ---------- gratuitous ---------- *)
 Lemma gratuitous_guard s a : inv s ->
   (forall svc b, holds s svc b -> a_ip b <> a_ip a) -> gratuitous s a = [].
